@@ -136,6 +136,12 @@ def handle : Handler := fun j a => do
       -- (a server killed during the procedure refuses the connection: no statement reaches it)
       if pingOk cs h == some true && h != killedHost && !(evList.any fun e => e.startsWith s!"{h}:set_ro") then
         a := a.violationSig "C01:reachable-list-member-never-asked-to-freeze" s!"{h} (work list {workList pre}, old master {oldMaster}) in {j.compress}"
+        -- seen from C07: a request taken up again (its `from` is not the recorded master any more) that leaves the recorded
+        -- master unexamined and writable and ends with another writable server next to it
+        let writableAtEnd := fun (x : String) => final.any fun n => n.host == x && n.alive && !n.ro
+        if h == oldMaster && sw.from_ != "" && sw.from_ != oldMaster && writableAtEnd h &&
+            (final.any fun n => n.host != h && n.alive && !n.ro && !n.isReplica) then
+          a := a.violationSig "C07:resumed-request-ends-with-a-second-writable-master-next-to-the-recorded-one" s!"{h} and another; {j.compress}"
   let posList : List Pos := match lock1Snap with
     | some s =>
       let nodes := snapNodes s
